@@ -59,10 +59,10 @@ def limit_df(df, fs, start=None, stop=None, reset_indices=True):
 
     center_e, side_e = get_extrema_df(df)
 
-    df = df[df['sample_last_' + side_e].values >= start*fs]
+    df = df[df['sample_last_' + side_e].values / fs >= start]
 
     if stop is not None:
-        df = df[df['sample_next_' + side_e].values <= stop*fs]
+        df = df[df['sample_next_' + side_e].values / fs <= stop]
 
     # Shift sample indices to start at 0
     if reset_indices:
